@@ -103,6 +103,14 @@ Theorem C10_sdes_keys_mirrored : forall pr ka kb,
   mirrored (derive_sdes pr ka kb) (derive_sdes pr kb ka).
 Proof. exact sdes_keys_mirrored. Qed.
 
+(* ... and it is the RFC 4568 assignment: transmit with the key of one's own a=crypto line *)
+Theorem C10_sdes_tx_is_own_key : forall pr local remote,
+  let c := derive_sdes pr local remote in
+  k_tx_key c = slice 0 (srtp_key_len pr) local /\ k_rx_key c = slice 0 (srtp_key_len pr) remote /\
+  k_tx_salt c = slice (srtp_key_len pr) (srtp_key_len pr + srtp_salt_len pr) local /\
+  k_rx_salt c = slice (srtp_key_len pr) (srtp_key_len pr + srtp_salt_len pr) remote.
+Proof. exact sdes_tx_is_own_key. Qed.
+
 Theorem C10_sdes_suite_agree :
   exists pr, map_crypto_suite sdes_round_offer = Some pr /\ map_crypto_suite sdes_round_answer = Some pr.
 Proof. exact sdes_suite_agree. Qed.
